@@ -2245,10 +2245,7 @@ impl<'a> Searcher<'a> {
                     let int_value = field_value.to_int();
                     // the other operand need not be a whole number that fits: `size < 1.5`, `size = 5 / 2`,
                     // `size < 0.1m`, `size < 18446744073709551615`
-                    let ordering = match Self::whole_number(&value) {
-                        Some(val) => int_value.cmp(&val),
-                        None => Self::compare_floats(int_value as f64, Self::real_number(&value)),
-                    };
+                    let ordering = Self::compare_int_with(int_value, &value);
                     Self::ordering_satisfies(op, ordering)
                 }
                 VariantType::Float => {
@@ -2290,39 +2287,49 @@ impl<'a> Searcher<'a> {
         result
     }
 
-    /// The value as a whole number, if it is one and fits.
-    fn whole_number(value: &Variant) -> Option<i64> {
+    /// The value as an exact fraction (numerator, denominator > 0), if it is written as a whole
+    /// number or as a size literal, with or without a sign.
+    fn exact_number(value: &Variant) -> Option<(i128, i128)> {
         match value.get_type() {
-            &VariantType::Int => Some(value.to_int()),
+            &VariantType::Int => Some((value.to_int() as i128, 1)),
             &VariantType::Float => None,
             _ => {
                 let text = value.to_string();
-                if let Ok(number) = text.parse::<i64>() {
-                    return Some(number);
+                if let Ok(number) = text.parse::<i128>() {
+                    return Some((number, 1));
                 }
-                match crate::util::parse_filesize_exact(&text) {
-                    Some((numerator, denominator)) if numerator % denominator == 0 => {
-                        i64::try_from(numerator / denominator).ok()
-                    }
-                    Some(_) => None,
-                    // what is no number at all counts as before
-                    None if text.parse::<f64>().is_err() => Some(value.to_int()),
-                    None => None,
-                }
+                let (negative, magnitude) = match text.strip_prefix('-') {
+                    Some(magnitude) => (true, magnitude),
+                    None => (false, text.strip_prefix('+').unwrap_or(&text)),
+                };
+                let (numerator, denominator) = crate::util::parse_filesize_exact(magnitude)?;
+                let numerator = i128::try_from(numerator).unwrap_or(i128::MAX);
+                Some((if negative { -numerator } else { numerator }, denominator as i128))
             }
         }
     }
 
     fn real_number(value: &Variant) -> f64 {
-        match value.get_type() {
-            &VariantType::Int | &VariantType::Float => value.to_float(),
-            _ => {
-                let text = value.to_string();
-                match crate::util::parse_filesize_exact(&text) {
-                    Some((numerator, denominator)) => numerator as f64 / denominator as f64,
-                    None => value.to_float(),
-                }
+        match Self::exact_number(value) {
+            Some((numerator, denominator)) => numerator as f64 / denominator as f64,
+            None => value.to_float(),
+        }
+    }
+
+    /// An integer against any number: exactly where the other side is written exactly.
+    fn compare_int_with(int_value: i64, value: &Variant) -> Ordering {
+        match Self::exact_number(value) {
+            Some((numerator, denominator)) => match (int_value as i128).checked_mul(denominator) {
+                Some(scaled) => scaled.cmp(&numerator),
+                None => Self::compare_floats(int_value as f64, numerator as f64 / denominator as f64),
+            },
+            // what is no number at all counts as before
+            None if value.to_string().parse::<f64>().is_err()
+                && !matches!(value.get_type(), &VariantType::Float) =>
+            {
+                int_value.cmp(&value.to_int())
             }
+            None => Self::compare_floats(int_value as f64, value.to_float()),
         }
     }
 
